@@ -85,6 +85,10 @@ template <size_t K> static bool run(const std::string& op, const A& a, O& o) {
         long long w = a.SW(2);
         { U x((double)w); ou(x); }
         { U x = toU<K>(Z((long)(w < 0 ? -w : w))); o.ll((long long)(double)x); }
+    } else if (op == "cvu_todbl") {                // ruint -> double, every magnitude (printed exactly through mpz_set_d)
+        U x = toU<K>(z); double d = (double)x; Z r; mpz_set_d(r.get_mpz_t(), d); o.z(r);
+    } else if (op == "cvs_todbl") {
+        S x = toS<K>(z); double d = (double)x; Z r; mpz_set_d(r.get_mpz_t(), d); o.z(r);
     } else if (op == "cvs_from") {
         Integer I = toI(z);
         { S x(I); os(x); }
@@ -179,6 +183,18 @@ int main(int argc, char** argv) {
             Z zd((long)d);
             emit_case("cvu_dbl", K, zd);
             emit_case("cvs_dbl", K, zd);
+            // ruint/rint -> double beyond 2^53: ties (odd/even neighbours), just below/above a power of two, the top of the limb
+            {
+                unsigned e = 53 + (unsigned)rng.below(11);                       // 2^e <= v < 2^(e+1) <= 2^64
+                Z sp = pow2(e - 52), base = pow2(e) + sp * Z((unsigned long)rng.below(1u << 20));
+                Z cand[] = {base, base + sp / 2, base + sp / 2 + 1, base + sp / 2 - 1, base + sp + sp / 2, Z(pow2(e + 1) - 1), Z(pow2(e + 1) - sp / 2),
+                            Z(pow2(e + 1) - sp / 2 - 1), rnd(64), pow2(53), pow2(53) + 1, pow2(53) + 2, pow2(53) + 3, pow2(64) - 1, pow2(64) - 1024, pow2(64) - 1025, pow2(63)};
+                const Z& v = cand[i % (sizeof cand / sizeof cand[0])];
+                if (v < M) emit_case("cvu_todbl", K, v);
+                Z sv = v % pow2(63);
+                emit_case("cvs_todbl", K, (i & 1) ? Z(-sv) : sv);
+                if (i % 16 == 0) { emit_case("cvs_todbl", K, -pow2(63)); emit_case("cvs_todbl", K, Z(-pow2(53) - 1)); emit_case("cvs_todbl", K, Z(-pow2(53) - 3)); }
+            }
         }
     }
     return 0;
